@@ -349,6 +349,8 @@ func replay(path string) {
 	switch {
 	case strings.HasPrefix(a.Sub, "parsers") || strings.HasPrefix(a.Sub, "rtp") || strings.HasPrefix(a.Sub, "rtcp"):
 		v = replayParsers(a.Sub, a.Replay)
+	case a.Sub == "precondition-headers":
+		v = replayPrecond(a.Replay)
 	case strings.HasPrefix(a.Sub, "http") || strings.HasPrefix(a.Sub, "sdpfrag"):
 		v = replayHTTP(a.Sub, a.Replay)
 	default:
